@@ -15,6 +15,14 @@ H1 (direct calls of the real functions of $QMI_REPO, scratch data store under /v
   * header   every header line of every text file written, and the value the real
              _parse_attribute_value returns for it, against the model (py_repr / header_line /
              parse_line / parse_attr); plus _parse_attribute_value on damaged and hand-written texts.
+  * names    every numbered name the real writer produces (QMI_DataSet_axisN_size/_label/_unit,
+             QMI_DataSet_columnN_label/_unit, the special-column labels axisN_index / axisN_scale) against the
+             model's decimal rendering, from a FIXED bucket of datasets with 10-13 (once 35) outer axes and
+             12-103 columns (N crosses 9/10 and 99/100), sent through all five chains; the real reader's
+             recogniser of special columns observed from outside with probe files (which axis is verified /
+             gets the scale) for every axis of a 12-axis file, out-of-range numbers and near-miss labels,
+             against parse_special.  ORACLE: a special column carrying the writer's own label for axis n is
+             taken as the index / scale column of axis n.
   * layout   text files of tagged arrays of every outer shape with 1-3 axes of size 1-4: index
              columns, row order and scale columns against index_column / all_idx / scale_column /
              extract_scale.
@@ -203,6 +211,9 @@ def gen_dataset(rng, idx, allow_astral_np):
     hdf5_only = (not text_only) and rng.random() < 0.1   # int64 beyond 2**53: not representable in the text format
     ndim = rng.choice([2, 2, 3, 3, 4])
     shape = tuple(rng.randint(1, 4) for _ in range(ndim))
+    if rng.random() < 0.08:                   # more axes, small sizes
+        ndim = rng.randint(5, 12)
+        shape = tuple(rng.choice([1, 1, 1, 2]) for _ in range(ndim - 1)) + (rng.randint(1, 3),)
     dtype = rng.choice(["float64", "float64", "int64", "int32", "float32"])
     if hdf5_only:
         dtype = "int64"
@@ -341,37 +352,41 @@ def header_of(path):
 
 
 def expected_header(ds):
-    """(name, Python-level value) of every header line write_dataset_to_text has to produce, in
-    order — restated from the file format, independent of the implementation"""
+    """(name, Python-level value, tag) of every header line write_dataset_to_text has to produce, in
+    order — restated from the file format, independent of the implementation.  tag = None or
+    (scheme, n) when the NAME carries the axis / column number n, plus, for the label of a special
+    column, (scheme, n, value-scheme, m): the VALUE is the numbered label axis<m>_index / _scale."""
     import time as _t
     nd = len(ds.data.shape)
-    out = [("QMI_DataSet_name", ds.name), ("QMI_DataSet_timestamp", ds.timestamp),
-           ("QMI_DataSet_time_str", _t.strftime("%Y-%m-%dT%H:%M:%S", _t.gmtime(float(ds.timestamp)))),
-           ("QMI_DataSet_ndim", nd), ("QMI_DataSet_ncol", ds.data.shape[-1])]
+    out = [("QMI_DataSet_name", ds.name, None), ("QMI_DataSet_timestamp", ds.timestamp, None),
+           ("QMI_DataSet_time_str", _t.strftime("%Y-%m-%dT%H:%M:%S", _t.gmtime(float(ds.timestamp))), None),
+           ("QMI_DataSet_ndim", nd, None), ("QMI_DataSet_ncol", ds.data.shape[-1], None)]
     for ax in range(nd - 1):
-        out.append(("QMI_DataSet_axis%d_size" % ax, ds.data.shape[ax]))
+        out.append(("QMI_DataSet_axis%d_size" % ax, ds.data.shape[ax], ("NAxisSize", ax)))
         if ds.axis_label[ax]:
-            out.append(("QMI_DataSet_axis%d_label" % ax, ds.axis_label[ax]))
+            out.append(("QMI_DataSet_axis%d_label" % ax, ds.axis_label[ax], ("NAxisLabel", ax)))
         if ds.axis_unit[ax]:
-            out.append(("QMI_DataSet_axis%d_unit" % ax, ds.axis_unit[ax]))
-    lab, unit = [], []
+            out.append(("QMI_DataSet_axis%d_unit" % ax, ds.axis_unit[ax], ("NAxisUnit", ax)))
+    lab, unit, special = [], [], []
     if nd > 2:
         for ax in range(nd - 1):
             lab.append("axis%d_index" % ax)
             unit.append("")
+            special.append(("NIndex", ax))
     for ax in range(nd - 1):
         if ds.axis_scale[ax] is not None:
             lab.append("axis%d_scale" % ax)
             unit.append(ds.axis_unit[ax])
+            special.append(("NScale", ax))
     lab += list(ds.column_label)
     unit += list(ds.column_unit)
     for c in range(len(lab)):
         if lab[c]:
-            out.append(("QMI_DataSet_column%d_label" % c, lab[c]))
+            out.append(("QMI_DataSet_column%d_label" % c, lab[c], ("NColLabel", c) + (special[c] if c < len(special) else ())))
         if unit[c]:
-            out.append(("QMI_DataSet_column%d_unit" % c, unit[c]))
+            out.append(("QMI_DataSet_column%d_unit" % c, unit[c], ("NColUnit", c)))
     for k, v in ds.attrs.items():
-        out.append((k, v))
+        out.append((k, v, None))
     return out
 
 
@@ -384,6 +399,7 @@ class Ctx:
         self.terms = []      # Coq case terms
         self.metas = []      # replay info per term
         self.seen_attr = set()
+        self.seen_name = set()
         self.seen_text = set()
 
     def add(self, term, meta):
@@ -416,20 +432,70 @@ def np_scalar_lines(path):
     return [ln for ln in hdr if re.search(r":\s*np\.[a-z0-9]+\(", ln)]
 
 
-def do_chains(cx, nds):
-    import numpy as np  # noqa
+def fixed_datasets(rng):
+    """FIXED bucket (every run): high-rank shapes (10-13 outer axes, beyond HDF5's rank limit once), wide
+    datasets (column numbers 9/10/11 and 99/100/101), attribute names with digits — every place where
+    an axis or column number is rendered into a name crosses a digit-count boundary."""
+    import numpy as np
+    from qmi.data.dataset import DataSet
+    out = []
+
+    def mk(name, shape, scale_axes, lab_axes, lab_cols, text_only=False, extra_attrs=()):
+        n = int(np.prod(shape))
+        data = (np.arange(n, dtype=np.float64) * 0.5 - 3.25).reshape(shape)
+        ds = DataSet(name, data=data)
+        ds.timestamp = 1600000000.25
+        for ax in lab_axes:
+            ds.set_axis_label(ax, "ax %d" % ax)
+            ds.set_axis_unit(ax, "u%d" % ax)
+        for ax in scale_axes:
+            ds.set_axis_scale(ax, 0.5 + 1.25 * np.arange(shape[ax]) + ax)
+        for c in lab_cols:
+            ds.set_column_label(c, "c%d" % c)
+            ds.set_column_unit(c, "V%d" % c)
+        for k, v in extra_attrs:
+            ds.attrs[k] = v
+        spec = {"idx": name, "text_only": text_only, "hdf5_only": False, "dtype": "float64", "shape": list(shape),
+                "fixed": True}
+        out.append((spec, ds))
+
+    for nouter in (10, 11, 12, 13):
+        hi = list(range(8, nouter))
+        # A: sizes > 1 at the first and the last outer axis
+        sh = [1] * nouter
+        sh[0], sh[nouter - 1] = 2, 3
+        mk("hiA%d" % nouter, tuple(sh) + (2,), [0] + hi, [0] + hi, [0, 1])
+        # B: sizes > 1 at axis 9 and at the highest of 10 / 11 that exists
+        sh = [1] * nouter
+        sh[9] = 2
+        if nouter > 10:
+            sh[min(11, nouter - 1)] = 3
+        mk("hiB%d" % nouter, tuple(sh) + (1,), hi, hi, [0])
+        # C: scale only on one high axis of size 1, nothing else
+        mk("hiC%d" % nouter, (1,) * nouter + (2,), [nouter - 1], [], [])
+    sh = [1] * 35
+    sh[34], sh[10] = 2, 2
+    mk("hi35", tuple(sh) + (1,), [9, 10, 11, 33, 34], [9, 10, 11, 34], [0], text_only=True)
+    digit_attrs = [("a10", 1), ("9", "nine"), ("x9_11", 2.5), ("col10", "c"), ("axis10_scale", "user attribute"),
+                   ("column10_label", 7), ("100", 100)]
+    mk("wide13", (2, 13), [0], [0], [0, 8, 9, 10, 11, 12], extra_attrs=digit_attrs)
+    mk("wide12s", (2, 2, 12), [0, 1], [0, 1], [5, 6, 7, 8, 9, 10, 11])     # 4 special columns: user column 6 is column 10
+    mk("wide103", (1, 103), [0], [], [0, 9, 10, 98, 99, 100, 101, 102])
+    mk("wide101s", (2, 3, 101), [1], [1], [0, 6, 7, 96, 97, 98, 100])       # 3 special columns
+    return out
+
+
+def chain_one(cx, base, i, spec, ds0):
     from qmi.data.datastore import DataStore
     ck = cx.ck
-    rng = ck.rng
-    base = os.path.join(ck.scratch_dir(), "chains")
-    os.makedirs(base, exist_ok=True)
-    for i in range(nds):
-        spec, ds0 = gen_dataset(rng, i, allow_astral_np=(rng.random() < 0.12))
-        ck.count("dataset:ndim=%d" % len(spec["shape"]))
+    if True:
+        ck.count("dataset:ndim=%s" % (len(spec["shape"]) if len(spec["shape"]) < 10 else "10+"))
         ck.count("dataset:dtype=" + spec["dtype"])
         ck.count("dataset:" + ("text_only" if spec["text_only"] else "hdf5_only" if spec["hdf5_only"] else "both"))
+        if spec.get("fixed"):
+            ck.count("dataset:fixed-bucket")
         chains = [("text",)] if spec["text_only"] else [("hdf5",)] if spec["hdf5_only"] else CHAINS
-        sdir = os.path.join(base, "s%d" % i)
+        sdir = os.path.join(base, "s%s" % i)
         os.mkdir(sdir)
         store = DataStore(sdir)
         for ci, chain in enumerate(chains):
@@ -457,7 +523,7 @@ def do_chains(cx, nds):
                     what = "a string with a non-printable character beyond U+FFFF is not read back from text: " + bad[1]
                 else:
                     key = "chain:%s:%s" % (cname, bad[0])
-                    what = "chain %s: %s" % (cname, bad[1])
+                    what = "chain %s, dataset of shape %r: %s" % (cname, tuple(ds0.data.shape), bad[1])
                 ck.report(key, "C17 fails on the implementation: " + what,
                           {"kind": "chain", "chain": list(chain), "dataset": describe(ds0)})
             elif npl:
@@ -467,6 +533,18 @@ def do_chains(cx, nds):
             for path, written in texts:
                 header_cases(cx, path, written, {"kind": "chain", "chain": list(chain), "dataset": describe(ds0)})
         shutil.rmtree(sdir, ignore_errors=True)
+
+
+def do_chains(cx, nds):
+    ck = cx.ck
+    rng = ck.rng
+    base = os.path.join(ck.scratch_dir(), "chains")
+    os.makedirs(base, exist_ok=True)
+    for spec, ds0 in fixed_datasets(rng):
+        chain_one(cx, base, "f_" + spec["idx"], spec, ds0)
+    for i in range(nds):
+        spec, ds0 = gen_dataset(rng, i, allow_astral_np=(rng.random() < 0.12))
+        chain_one(cx, base, i, spec, ds0)
 
 
 def header_cases(cx, path, written, replay):
@@ -479,15 +557,17 @@ def header_cases(cx, path, written, replay):
         ck.report("header:shape", "text file header has %s lines, the format prescribes %d" % (
             None if hdr is None else len(hdr), len(exp)), replay)
         return
-    for line, (name, val) in zip(hdr, exp):
+    for line, (name, val, tag) in zip(hdr, exp):
         cv = canon_value(val)
         if cv is None:
             continue
         p = line.find(":")
         text = line[p + 1:].strip() if p >= 0 else ""
+        if tag is not None:
+            name_cases(cx, tag, line[2:p] if p >= 2 else line, text, replay)
         if re.match(r"^np\.[a-z0-9]+\(", text):
             continue
-        k = (name if not name.startswith("QMI_DataSet") else "Q", cv[0], repr(cv[1]))
+        k = (name if (not name.startswith("QMI_DataSet") or re.search(r"[0-9]{2}", name)) else "Q", cv[0], repr(cv[1]))
         if k in cx.seen_attr:
             continue
         cx.seen_attr.add(k)
@@ -499,6 +579,24 @@ def header_cases(cx, path, written, replay):
                {"kind": "attr", "name": name, "value": list(cv) if cv[0] != "f" else ["f", cv[1].hex()], "line": line,
                 "parsed": list(parsed), "from": replay})
         cx.seen_text.add(text)
+
+
+def name_cases(cx, tag, impl_name, impl_text, replay):
+    """the numbered NAME the real writer produced (and, for special columns, the numbered label it
+    wrote as the value) against the model's rendering — one case per (scheme, number)"""
+    ck = cx.ck
+    todo = [(tag[0], tag[1], impl_name)]
+    if len(tag) == 4:
+        r = parse_impl(impl_text)
+        todo.append((tag[2], tag[3], r[1] if r[0] == "str" else "<" + impl_text + ">"))
+    for scheme, n, got in todo:
+        if (scheme, n) in cx.seen_name:
+            continue
+        cx.seen_name.add((scheme, n))
+        ck.count("name:%s:%s" % (scheme, "0-9" if n < 10 else "10-99" if n < 100 else "100+"))
+        ck.note_case(("name", scheme, n), n >= 10)
+        cx.add("(CName %s %s %s)" % (scheme, cnat(n), cstr(got)),
+               {"kind": "name", "scheme": scheme, "n": n, "impl_name": got, "from": replay})
 
 
 HAND_TEXTS = ["", "+", "-", "--1", "+5", "-0", "007", "1_0", " 1", "1 ", "١٢", "0x10", "1e5", "True", "False", "true",
@@ -557,6 +655,12 @@ def do_layout(cx):
     shapes = []
     for nax in (1, 2, 3):
         shapes += list(itertools.product(range(1, maxd + 1), repeat=nax))
+    for nouter in (10, 11, 12, 13):           # high rank: mostly size 1, sizes 2-3 at varying (incl. high) positions
+        for pos in ((0, nouter - 1), (9, min(10, nouter - 1)), (nouter - 2, nouter - 1)):
+            sh = [1] * nouter
+            sh[pos[0]] = 2
+            sh[pos[1]] = 3 if pos[1] != pos[0] else 2
+            shapes.append(tuple(sh))
     for sh in shapes:
         ncol = rng.randint(1, 3)
         data = np.zeros(tuple(sh) + (ncol,), dtype=np.float64)
@@ -570,7 +674,7 @@ def do_layout(cx):
         ds = DataSet("lay", data=data)
         scales = {}
         for ax in range(len(sh)):
-            if rng.random() < 0.5:
+            if rng.random() < 0.5 or (len(sh) >= 10 and ax >= 9):
                 scales[ax] = [rng.randint(-50, 50) for _ in range(sh[ax])]
                 ds.set_axis_scale(ax, np.array(scales[ax], dtype=np.float64))
         replay = {"kind": "layout", "shape": list(sh), "ncol": ncol, "scales": {str(k): v for k, v in scales.items()}}
@@ -617,7 +721,7 @@ def do_layout(cx):
         for k in range(nidx):
             if idxcols[k] != [rw[k] for rw in rows]:
                 ck.report("layout:index-column", "index column %d of shape %r does not label the rows" % (k, sh), replay)
-        ck.count("layout:axes=%d" % len(sh))
+        ck.count("layout:axes=%s" % (len(sh) if len(sh) < 10 else "10+"))
         ck.note_case(("layout", sh, sorted(scales)), len(sh) > 1)
         if len(sh) == 1:
             # two-axis dataset: the writer emits no index column; the model's single index column is compared
@@ -625,6 +729,92 @@ def do_layout(cx):
             idxcols = [[rw[0] for rw in rows]]
         cx.add("(CLayout %s %s %s %s)" % (cnatlist(sh), clist([cnatlist(c) for c in idxcols]),
                                            clist([cnatlist(r) for r in rows]), clist(sc_terms)), replay)
+
+
+# =========================================================================================
+# H1: the reader's recogniser of special columns (axisN_index / axisN_scale)
+# =========================================================================================
+def special_file(nax, label, sizes, col):
+    """text of a dataset file with nax outer axes of the given sizes, one data column and ONE special
+    column carrying `label` and the values `col`"""
+    lines = ["# QMI_DataSet", "#", "# QMI_DataSet_name: 'p'", "# QMI_DataSet_timestamp: 0.0",
+             "# QMI_DataSet_ndim: %d" % (nax + 1), "# QMI_DataSet_ncol: 1"]
+    for ax in range(nax):
+        lines.append("# QMI_DataSet_axis%d_size: %d" % (ax, sizes[ax]))
+    lines.append("# QMI_DataSet_column0_label: %r" % label)
+    lines.append("#")
+    for k, c in enumerate(col):
+        lines.append("%r %r" % (float(c), float(k)))
+    return "\n".join(lines) + "\n"
+
+
+def read_special(txt):
+    """('ok', [axes with a scale], scale values) | ('err', exception class name)"""
+    from qmi.data.dataset import read_dataset_from_text
+    try:
+        ds = read_dataset_from_text(io.StringIO(txt))
+    except Exception as e:  # noqa
+        return ("err", type(e).__name__)
+    return ("ok", [ax for ax, s in enumerate(ds.axis_scale) if s is not None],
+            [[float(x) for x in s] for s in ds.axis_scale if s is not None])
+
+
+def probe_special(label, nax):
+    """How the real read_dataset_from_text treats a special column with this label, found from outside by
+    probe files: ('scale', n) | ('index', n) | ('ignored',) | ('error',)."""
+    r = read_special(special_file(nax, label, [1] * nax, [5.0]))
+    if r[0] == "ok" and len(r[1]) == 1 and r[2] == [[5.0]]:
+        return ("scale", r[1][0])
+    if r[0] == "ok" and r[1]:
+        return ("error",)
+    cands, allok = [], r[0] == "ok"
+    for n in range(nax):
+        sizes = [1] * nax
+        sizes[n] = 2
+        a = read_special(special_file(nax, label, sizes, [0.0, 1.0]))
+        b = read_special(special_file(nax, label, sizes, [0.0, 0.0]))
+        if a[0] == "ok" and b[0] == "err":
+            cands.append(n)        # verified against the index pattern of axis n (size 2), and only of that axis
+        if not (a[0] == "ok" and b[0] == "ok" and not a[1] and not b[1]):
+            allok = False
+    if len(cands) == 1:
+        return ("index", cands[0])
+    if not cands and allok:
+        return ("ignored",)
+    return ("error",)
+
+
+NEAR_LABELS = ["axis_index", "axis_scale", "axis", "axis1", "axis10index", "axis10_indexx", "axis10_scales", "Axis10_index",
+               "xaxis10_scale", "axis1x_index", "axisx_scale", "axis007_index", "axis+7_scale", "axis010_scale", "axis0x1_index",
+               "axis1.0_scale", "axis10-index", "axis10_Index", "axis10_unit", "axis10_label", "axis--1_index", "index", "_index",
+               "axis10_index_scale", "axis3_scale_index", "c10", ""]
+
+
+def csobs(o):
+    return {"scale": lambda: "(OScale %s)" % cnat(o[1]), "index": lambda: "(OIndex %s)" % cnat(o[1]),
+            "ignored": lambda: "OIgnored", "error": lambda: "OError"}[o[0]]()
+
+
+def do_special(cx):
+    ck = cx.ck
+    nax = 12
+    labels = []
+    for n in list(range(nax)) + [nax, nax + 1, 99, 100, 101]:
+        labels.append(("axis%d_index" % n, ("index", n)))
+        labels.append(("axis%d_scale" % n, ("scale", n)))
+    labels += [(l, None) for l in NEAR_LABELS]
+    for label, rendered in labels:
+        obs = probe_special(label, nax)
+        replay = {"kind": "special", "label": label, "nax": nax, "impl_obs": list(obs)}
+        ck.count("special:" + obs[0])
+        ck.note_case(("special", label), obs[0] in ("scale", "index"))
+        # ORACLE (independent of the model): a special column that carries the writer's own label for axis n
+        # of the dataset must be taken as the index / scale column of axis n
+        if rendered is not None and rendered[1] < nax and obs != rendered:
+            ck.report("special-label:%s-axis-not-recognised" % rendered[0],
+                      "C17 fails on the implementation: in a text file with %d axes the special column labelled %r is treated as %r "
+                      "(a %s column of axis %d is silently not restored / not verified)" % (nax, label, obs, rendered[0], rendered[1]), replay)
+        cx.add("(CSpecial %s %s %s)" % (cnat(nax), cstr(label), csobs(obs)), replay)
 
 
 # =========================================================================================
@@ -1066,6 +1256,23 @@ def gen_rec_plans(rng):
     return plans
 
 
+def gen_rec_plans_race(rng, wi):
+    """plans whose sleeps are multiples of the write interval: recording threads wake at the same virtual
+    instant as the recorder's timed wait, so record() runs while the recorder is between leaving the wait
+    loop and finishing its write phase — repeatedly on the same dataset name"""
+    plans = []
+    for k in range(rng.choice([1, 2, 2, 3])):
+        p = []
+        for j in range(rng.randint(3, 5)):
+            p.append(("rec", rng.choice([0, 0, 1]), [k * 10000 + j * 10 + x for x in range(rng.choice([1, 2]))]))
+            if rng.random() < 0.2:
+                p.append(("attr", rng.choice([0, 1]), rng.randint(0, 1), k * 100 + j))
+            if rng.random() < 0.7:
+                p.append(("sleep", wi * rng.choice([1, 1, 2])))
+        plans.append(p)
+    return plans
+
+
 def rec_oracle(plans, res):
     """C17 (recorder part) on the implementation's observations."""
     if res["status"] != "ok":
@@ -1135,6 +1342,15 @@ def do_recorder(cx, nplans, nsched):
             path = os.path.join(base, "r%d_%d.h5" % (pi, si))
             jobs.append((rec_scenario, (path, plans, wi, ko, ll), kw))
             metas.append((plans, wi, ko, ll, path))
+    for pi in range(max(20, nplans // 3)):       # race bucket: coinciding wake-ups, line-level, frequent switches
+        wi = rng.choice([0.5, 1.0])
+        plans = gen_rec_plans_race(rng, wi)
+        ko = rng.random() < 0.3
+        for si in range(nsched):
+            kw = dict(strategy="random", seed=rng.randrange(1 << 30), switch_prob=rng.choice([0.5, 0.65, 0.8]))
+            path = os.path.join(base, "q%d_%d.h5" % (pi, si))
+            jobs.append((rec_scenario, (path, plans, wi, ko, True), kw))
+            metas.append((plans, wi, ko, True, path))
     results = dsched.run_forked(jobs, nproc=16, wall_timeout=60.0)
     for (plans, wi, ko, ll, path), res in zip(metas, results):
         try:
@@ -1187,19 +1403,31 @@ def run(ck):
         "printable = str.isprintable of the running CPython, supplied to the model per case",
         "strings that HDF5 cannot store (NUL, lone surrogates) and integers beyond 64 bits go through the text chain only; NaN is excluded",
         "attribute names: non-empty, no ':' (rejected by the writer), no control characters",
+        "numbered names: axis numbers are exercised up to 34 (numpy arrays have at most 64 axes, HDF5 datasets 32), column numbers up "
+        "to 102; int() in the recogniser of special columns is modelled for sign + ASCII digits and for plain ASCII junk only "
+        "(white space, underscores, non-ASCII digits inside the number are not generated)",
         "recorder: blocks passed to record() before close() is called; record()/set_attribute() concurrent with close() are outside",
         "file-system races between processes are outside (single process, scratch directory)",
     ]
     cx = Ctx(ck)
     quick = ck.tier == "quick"
+    import time as _time
+    phases = {}
+
+    def timed(name, f, *a):
+        t0 = _time.time()
+        f(cx, *a)
+        phases[name] = round(_time.time() - t0, 1)
     try:
-        do_chains(cx, 160 if quick else 3000)
-        do_parse_cases(cx, 1500 if quick else 30000)
-        do_layout(cx)
-        do_store(cx, 300 if quick else 6000)
-        do_recorder(cx, 60 if quick else 600, 10 if quick else 40)
+        timed("chains", do_chains, 160 if quick else 3000)
+        timed("parse", do_parse_cases, 1500 if quick else 30000)
+        timed("layout", do_layout)
+        timed("special", do_special)
+        timed("store", do_store, 260 if quick else 6000)
+        timed("recorder", do_recorder, 50 if quick else 600, 10 if quick else 40)
     finally:
         ck.cleanup()
+    ck.coverage["phase_s"] = phases
     for m in (cx.metas[:1] + cx.metas[len(cx.metas) // 2: len(cx.metas) // 2 + 1] + cx.metas[-1:]):
         ck.sample({k: v for k, v in m.items() if k != "from"}, 3)
     bad = ck.run_model("C17.Corr", "check_case", cx.terms, "case", shard=250)
@@ -1218,7 +1446,9 @@ def run(ck):
                 ck.report("corr:%s" % m["kind"], "implementation and Coq model disagree on a %s case (the property oracle passed on it)" % m["kind"],
                           dict(m, broken="correspondence C17.Corr.check_case"), found_input=False)
     return ck.finish("generated datasets through five write/read chains; every distinct header line; damaged attribute texts; "
-                     "all outer shapes up to 3 axes of size <= 4; store histories; recorder schedules (random/PCT, sync- and "
+                     "all outer shapes up to 3 axes of size <= 4 and a fixed bucket of shapes with 10-13 (once 35) outer axes and of "
+                     "datasets with 12-103 columns (numbered names crossing 9/10 and 99/100); probe files for the reader's recogniser of "
+                     "special columns; store histories; recorder schedules (random/PCT, sync- and "
                      "line-level switch points); distinct by content hash; non-trivial = has metadata / special characters / "
                      "several axes / a write or lookup / several recording threads")
 
@@ -1270,6 +1500,15 @@ def replay(rep):
             bad = rec_oracle(plans, res)
             print("oracle:", bad or "holds")
             return 1 if bad else 0
+        if kind == "special":
+            obs = probe_special(c["label"], c["nax"])
+            print("special column labelled %r in a file with %d axes is treated as %r" % (c["label"], c["nax"], obs))
+            m = re.fullmatch(r"axis([1-9][0-9]*|0)_(index|scale)", c["label"])
+            bad = bool(m) and int(m.group(1)) < c["nax"] and obs != (m.group(2), int(m.group(1)))
+            print("oracle:", "NOT taken as the %s column of axis %s" % (m.group(2), m.group(1)) if bad else "holds")
+            return 1 if bad else 0
+        if kind == "name" and c.get("from"):
+            return replay({"case": c["from"], "seed": rep.get("seed")})
         print("layout / other case: re-run ./check C17 --seed", rep.get("seed"))
         return 0
     finally:
